@@ -33,5 +33,7 @@ def run(ctx):
         ctx.require("limited_" + d, c.get("limited_" + d, 0), 20)
     for d in ("stream", "stream_mt", "auto", "alone", "lzip"):
         ctx.require("memlimit_resume_" + d, c.get("memlimit_resume_" + d, 0), 20)
+    ctx.require("file_info_many_block_files", c.get("file_info_many_block_files", 0), 20)
+    ctx.require("mt_mixed_mode_files", c.get("mt_mixed_mode_files", 0), 20)
     for e in ("raw_encoder", "easy_encoder", "stream_encoder_mt", "raw_decoder", "easy_decoder"):
         ctx.require("estimate_" + e, c.get("estimate_" + e, 0), 30)
